@@ -102,8 +102,12 @@ O_FETCH_MNT = ob("O6.1", FD + "fd_fetch_mnt_id", "fetch_mnt_id for every statx a
 O_SAME_MNT = ob("O6.2a", PF + "procfs_verify_same_mnt", "verify_same_mnt for every handle mount id x statx answer: Ok iff equal, else EXDEV, statx failure => that errno", stubs=["syscalls::statx"], cost=3)
 O_IS_PROCFS = ob("O6.2b", PF + "procfs_verify_is_procfs", "verify_is_procfs for every fstatfs answer: Ok iff f_type == PROC_SUPER_MAGIC, else EXDEV / errno", stubs=["syscalls::fstatfs"], cost=3)
 O_TRY_FROM_FD = ob("O6.3", PF + "procfs_try_from_fd", "ProcfsHandle::try_from_fd under K: Ok only for f_type==procfs and inode 1, mnt_id is the kernel's answer, is_subset iff a probe failed, descriptor closed on refusal", stubs=["syscalls::fstatfs", "syscalls::statx", "FdExt>::metadata", "accessat"], cost=5)
-O_OPEN_UNMASKED = ob("O6.4a", PF + "procfs_open_unmasked", "ProcfsHandle::open (unmasked handle) for every base, sub-path <= L, flag word and K: sub-path lookup is forced O_NOFOLLOW with the caller's other bits verbatim; a descriptor is returned only after statx mount-id equality with the handle AND fstatfs==procfs on that very descriptor; no retry; no leak", stubs=OPEN_STUBS, cost=8)
-O_OPEN_MASKED = ob("O8.1", PF + "procfs_open_masked", "ProcfsHandle::open on a masked (subset/hidepid) handle: ENOENT is retried on at most ONE freshly created handle (which may itself be masked), returned descriptors verified on the handle that produced them, retry handle closed", stubs=OPEN_STUBS, cost=9)
+O_OPEN_UNMASKED = ob("O6.4a", PF + "procfs_open_unmasked", "ProcfsHandle::open (unmasked handle) for every base, sub-path <= L, flag word and K: sub-path lookup is forced O_NOFOLLOW with the caller's other bits verbatim; a descriptor is returned only after statx mount-id equality with the handle AND fstatfs==procfs on that very descriptor; no retry; no leak", stubs=OPEN_STUBS, covers_may_be_unsat=["retried once"], tiers=("thorough",), timeout={"thorough": 3000}, cost=8)
+O_OPEN_OKPATH = ob("O6.4b", PF + "procfs_open_okpath", "ProcfsHandle::open, every kernel step succeeds, mount ids / fs types / flag word / sub-path symbolic: returned only if statx mount id == handle's AND f_type == procfs on that descriptor, else EXDEV; sub-path lookup forced O_NOFOLLOW", stubs=OPEN_STUBS, covers_may_be_unsat=["ENOENT reported", "retried once"], cost=6)
+O_OPEN_LOOKUPFAIL = ob("O6.4c", PF + "procfs_open_lookup_fails", "ProcfsHandle::open on an unmasked handle whose sub-path lookup fails with ANY errno: that error, no retry handle, base descriptor closed", stubs=OPEN_STUBS, covers_may_be_unsat=["opened", "over-mount detected", "retried once"], cost=6)
+O_OPEN_RETRY_OK = ob("O8.2", PF + "procfs_open_masked_retry_ok", "masked handle + ENOENT: exactly one retry handle is created, the lookup is repeated on it with the same arguments, its result is verified against ITS mount and returned; retry handle closed", stubs=OPEN_STUBS, covers_may_be_unsat=["ENOENT reported"], cost=8)
+O_OPEN_RETRY_MASKED = ob("O8.3", PF + "procfs_open_masked_retry_still_masked", "masked handle + ENOENT, and the retry handle is masked as well and also answers ENOENT (unprivileged caller on a hidepid/subset host): ENOENT is reported after ONE retry; no second retry handle (bounded handles/descriptors)", stubs=OPEN_STUBS, covers_may_be_unsat=["opened", "over-mount detected"], cost=8)
+O_OPEN_MASKED = ob("O8.1", PF + "procfs_open_masked", "ProcfsHandle::open on a masked (subset/hidepid) handle: ENOENT is retried on at most ONE freshly created handle (which may itself be masked), returned descriptors verified on the handle that produced them, retry handle closed", stubs=OPEN_STUBS, tiers=("thorough",), timeout={"thorough": 3000}, cost=9)
 O_TFF_FAULT = ob("O10.3", PF + "procfs_try_from_fd_fstat_fault", "try_from_fd when the fstat of the candidate handle fails: clean error, no panic, descriptor closed", stubs=["FdExt>::metadata"], covers_may_be_unsat=["masked handle", "unmasked handle"], cost=5)
 
 RP = "resolvers::procfs::verif_h_rprocfs::"
@@ -188,7 +192,7 @@ C10_OBS = [O_NEW_FAIL, O_GLOBAL_INIT, O_TFF_FAULT, O_O2_EAGAIN, O_O2_ENOSYS, O_O
     [o for o in C14_OPS if o["id"] in ("O14.6.base", "O14.5.base", "O14.1.base")] + [C12_OBS[1], C13_OBS[0], C13_OBS[1]] + \
     [o for o in O_ERR_EQUIV]
 C03_OBS = [O_RESOLVE_PARENT] + [o for o in C14_OPS if o["id"].endswith(".base")] + O_RA_TOP[:1] + [C13_OBS[0], C13_OBS[1], C13_OBS[2], C12_OBS[1]]
-C11_OBS = C11_CAPI + [o for o in C14_OPS if o["id"] in ("O14.5.base", "O14.5.nobase", "O14.6.base", "O14.1.base")] + [O_RESOLVE_PARENT, O_TRY_FROM_FD, O_OPEN_UNMASKED, C12_OBS[1], C13_OBS[2], O_OF_LINK]
+C11_OBS = C11_CAPI + [o for o in C14_OPS if o["id"] in ("O14.5.base", "O14.5.nobase", "O14.6.base", "O14.1.base")] + [O_RESOLVE_PARENT, O_TRY_FROM_FD, O_OPEN_OKPATH, O_OPEN_LOOKUPFAIL, C12_OBS[1], C13_OBS[2], O_OF_LINK]
 
 PROPERTIES = {
     "C14": {
@@ -220,24 +224,27 @@ PROPERTIES = {
         "obligations": C13_OBS + O_RA_TOP,
     },
     "C06": {
+        "bounds": {"quick": {"MAX_CALLS": 16, "MAX_FDS": 8}, "thorough": {"MAX_CALLS": 16, "MAX_FDS": 8}},
         "explanation": "C06: every verification primitive (fetch_mnt_id, verify_same_mnt, verify_is_procfs, try_from_fd) is decided for every kernel answer, and "
                        "ProcfsHandle::open is executed with the procfs resolver replaced by a stub returning an ARBITRARY descriptor: whatever the resolver "
                        "returns, it leaves open() only after mount-id equality and f_type==procfs were established on that descriptor.",
         "outside": "what a real kernel reports for real over-mounts (statx/fstatfs contracts assumed); racing mounts; that fsopen/open_tree handles are private; the resolver walks themselves (C07)",
         "assumptions": ["ProcfsResolver::resolve returns an arbitrary descriptor or error", "statx/fstatfs answers arbitrary but consistent per descriptor"],
-        "obligations": [O_FETCH_MNT, O_SAME_MNT, O_IS_PROCFS, O_TRY_FROM_FD, O_OPEN_UNMASKED, O_OF_LINK, O_OF_NOTLINK],
+        "obligations": [O_FETCH_MNT, O_SAME_MNT, O_IS_PROCFS, O_TRY_FROM_FD, O_OPEN_OKPATH, O_OPEN_LOOKUPFAIL, O_OPEN_UNMASKED, O_OF_LINK, O_OF_NOTLINK],
     },
     "C08": {
+        "bounds": {"quick": {"MAX_CALLS": 16, "MAX_FDS": 8}, "thorough": {"MAX_CALLS": 16, "MAX_FDS": 8}},
         "explanation": "C08: ProcfsHandle::open on a masked handle with an arbitrary resolver/kernel; the stub for new_unmasked counts handles created during one lookup and may return a handle that is itself masked.",
         "outside": "real hidepid/subset mounts (K covers them as 'probe fails'); wall time",
         "assumptions": ["new_unmasked replaced by a counting stub returning an arbitrary (possibly masked) handle"],
-        "obligations": [O_OPEN_MASKED, O_OPEN_UNMASKED],
+        "obligations": [O_OPEN_RETRY_OK, O_OPEN_RETRY_MASKED, O_OPEN_LOOKUPFAIL, O_OPEN_MASKED, O_OPEN_UNMASKED],
     },
     "C07": {
+        "bounds": {"quick": {"MAX_CALLS": 16, "MAX_FDS": 8}, "thorough": {"MAX_CALLS": 16, "MAX_FDS": 8}},
         "explanation": "C07 (partial): the creation-flag refusal of both procfs resolvers is decided for every 32-bit flag word; ProcfsHandle::open's forced O_NOFOLLOW for every flag word (O6.4a); the kernel resolver's fixed confinement mask.",
         "outside": "the emulated procfs walk itself ('..', absolute links, final-component table) and equality of outcomes between the two resolvers on a live /proc: the walk (opath_resolve) is a heap-container loop this engine does not finish (DESIGN §1.2)",
         "assumptions": ["opath_resolve replaced by a recording stub in the dispatch harnesses"],
-        "obligations": [O_RP_CREAT_O2, O_RP_CREAT_OP, O_RP_MASK, O_RP_DISPATCH, O_OPEN_UNMASKED, O_OF_LINK, O_OF_NOTLINK],
+        "obligations": [O_RP_CREAT_O2, O_RP_CREAT_OP, O_RP_MASK, O_RP_DISPATCH, O_OPEN_OKPATH, O_OPEN_UNMASKED, O_OF_LINK, O_OF_NOTLINK],
     },
     "C15": {
         "explanation": "C15: may_follow_link is executed with the two fstat answers, geteuid and the cached sysctl all symbolic at full width; the oracle is a transcription of fs/namei.c:may_follow_link.",
@@ -264,7 +271,7 @@ PROPERTIES = {
                        "call that the name is one '/'-free component relative to a descriptor (never AT_FDCWD/absolute), and that opens carry O_NOFOLLOW (create_file, mkdir_all, remove_all scan, procfs open).",
         "outside": "call sites inside the emulated walks (do_resolve, opath_resolve: not executable here); the O_CLOEXEC added inside syscalls::openat2 itself (variadic libc::syscall unsupported by Kani: openat2 is stubbed as a whole); 'exactly one textual call site of openat_follow' (syntactic)",
         "assumptions": ["rustix entry points replaced by recording stubs in layer 1", "kernel K / resolver contract stubs in layer 3"],
-        "obligations": C05_WRAP + [O_O2_OPEN, O_O2_RESOLVE, O_RP_MASK, O_OPEN_UNMASKED] + [o for o in C14_OPS if o["id"] in ("O14.5.base", "O14.6.base")] + [C13_OBS[2], C12_OBS[1]],
+        "obligations": C05_WRAP + [O_O2_OPEN, O_O2_RESOLVE, O_RP_MASK, O_OPEN_OKPATH] + [o for o in C14_OPS if o["id"] in ("O14.5.base", "O14.6.base")] + [C13_OBS[2], C12_OBS[1]],
     },
 }
 
